@@ -7,6 +7,7 @@ package w
 
 import (
 	"fmt"
+	"strings"
 	"time"
 
 	"github.com/hashicorp/serf/serf"
@@ -56,7 +57,31 @@ func execC34(r *Run) {
 		cf.ReapInterval = 1000 * time.Hour
 		cf.QueueCheckInterval = 1000 * time.Hour
 	}}
-	if err := c.Start(0, opts); err != nil {
+	// "a shutdown had begun": the moment the node says so in its log (it does whenever it is
+	// shut down without having left), read off the same event counter as the calls
+	seq := 0
+	shutdownBegan := -1
+	opts0 := NodeOpts{Mutate: func(cf *serf.Config) {
+		opts.Mutate(cf)
+		cf.LogOutput = writerFunc(func(p []byte) (int, error) {
+			if shutdownBegan < 0 && strings.Contains(string(p), "Shutdown without a Leave") {
+				shutdownBegan = seq
+			}
+			return len(p), nil
+		})
+	}}
+	// dials node 0 makes after it has announced its shutdown, by the goroutine that makes them (a
+	// Join dials in the goroutine of its caller)
+	dialsAfter := map[uint64]int{}
+	c.BlockDial = func(from, to string) error {
+		if shutdownBegan >= 0 && from == c.Nodes[0].Addr() {
+			if _, seen := dialsAfter[vsched.GoID()]; !seen {
+				dialsAfter[vsched.GoID()] = seq
+			}
+		}
+		return nil
+	}
+	if err := c.Start(0, opts0); err != nil {
 		r.Fail("setup", "setup", "%v", err)
 		return
 	}
@@ -79,7 +104,6 @@ func execC34(r *Run) {
 			perTask[s.I%nt] = append(perTask[s.I%nt], s)
 		}
 	}
-	seq := 0
 	// a sample is an interval: State() was called at seq s1 and had returned at s2
 	type sample struct {
 		s1, s2 int
@@ -101,6 +125,7 @@ func execC34(r *Run) {
 		start, end int
 		before     serf.SerfState
 		err        error
+		gid        uint64
 	}
 	var calls []*call
 	var tasks []*vsched.G
@@ -109,7 +134,7 @@ func execC34(r *Run) {
 		tasks = append(tasks, b.S.Spawn(fmt.Sprintf("T%d", t), func() {
 			for _, s := range perTask[t] {
 				vsched.YieldAt("call-start")
-				cl := &call{task: t, kind: s.S}
+				cl := &call{task: t, kind: s.S, gid: vsched.GoID()}
 				cl.before = observe(fmt.Sprintf("T%d before %s", t, s.S))
 				seq++
 				cl.start = seq
@@ -168,6 +193,12 @@ func execC34(r *Run) {
 			if cl.before != serf.SerfAlive && cl.err == nil {
 				r.Fail("join-after-leave-accepted", "C34 join-accepted", "Join was called when State() already read %s, and succeeded", cl.before)
 			}
+			if d, dialled := dialsAfter[cl.gid]; dialled && shutdownBegan >= 0 && cl.start > shutdownBegan && cl.start <= d && d <= cl.end {
+				r.Fail("join-after-leave-accepted", "C34 join-during-shutdown", "the node had announced its shutdown in its log (seq %d) before Join was called (seq %d); the Join was not refused: it dialled its peer (seq %d) and returned %v", shutdownBegan, cl.start, d, cl.err)
+			}
+			if shutdownBegan >= 0 && cl.start > shutdownBegan && cl.err == nil {
+				r.Fail("join-after-leave-accepted", "C34 join-during-shutdown", "the node had announced its shutdown in its log (seq %d) before Join was called (seq %d), and the Join succeeded", shutdownBegan, cl.start)
+			}
 		case "leave":
 			shutdownInFlight := false
 			for _, o := range calls {
@@ -193,3 +224,7 @@ func execC34(r *Run) {
 	})
 	c.Nodes[0].Up, c.Nodes[1].Up = false, false
 }
+
+type writerFunc func(p []byte) (int, error)
+
+func (f writerFunc) Write(p []byte) (int, error) { return f(p) }
